@@ -2,6 +2,7 @@ package main
 
 import (
 	"bytes"
+	"encoding/binary"
 	"fmt"
 	"os"
 	"reflect"
@@ -388,6 +389,12 @@ func (c *child) genLayout(r *vlib.PRNG) layoutSpec {
 		ls.Kinds = append(ls.Kinds, kind)
 		ls.GPUs = append(ls.GPUs, 1+r.Intn(ng))
 	}
+	if c.path == "dma" && r.Chance(1, 3) {
+		// one larger buffer: room for multi-page copies next to a running kernel
+		ls.Sizes = append(ls.Sizes, (4+r.Intn(5))*pageSize)
+		ls.Kinds = append(ls.Kinds, []string{"plain", "remap"}[r.Intn(2)])
+		ls.GPUs = append(ls.GPUs, 1+r.Intn(ng))
+	}
 	ls.NQ = 2 + r.Intn(3)
 	return ls
 }
@@ -663,6 +670,153 @@ func (th *thread) kernel(m *ctxModel, off, nElem int, op kern.Op, cst uint32, bl
 			break
 		}
 	}
+}
+
+// stridedKernel is kern.ElemKernel with a different address computation:
+// element gid lives at byte (gid>>8)*2048 + (gid&255)*4 of the buffer, i.e. the
+// kernel touches only the first KiB of every 2 KiB stripe. On the r9nano
+// platform (16 L2/DRAM banks interleaved by 128 bytes) that is banks 0-7 only,
+// which makes the banks answer at different speeds.
+func stridedKernel(op kern.Op) *insts.KernelCodeObject {
+	co := kern.ElemKernel(op)
+	var out []byte
+	done := false
+	for i := 0; i+4 <= len(co.Data); i += 4 {
+		w := binary.LittleEndian.Uint32(co.Data[i:])
+		if w == 0x24000082 && !done { // v_lshlrev_b32 v0, 2, v0
+			done = true
+			for _, x := range []uint32{
+				0x20060088,             // v_lshrrev_b32 v3, 8, v0
+				0x260800FF, 0x000000FF, // v_and_b32 v4, 0xff, v0
+				0x2406068B, // v_lshlrev_b32 v3, 11, v3
+				0x24080882, // v_lshlrev_b32 v4, 2, v4
+				0x28000903, // v_or_b32 v0, v3, v4
+			} {
+				out = binary.LittleEndian.AppendUint32(out, x)
+			}
+			continue
+		}
+		out = binary.LittleEndian.AppendUint32(out, w)
+	}
+	if !done {
+		panic("harness: ElemKernel layout changed")
+	}
+	co.Data = out
+	return co
+}
+
+func stridedOffset(gid int) int { return (gid>>8)*2048 + (gid&255)*4 }
+
+// kernelStrided launches stridedKernel over nElem elements (multiple of 256)
+// starting at arena offset off (2 KiB aligned).
+func (th *thread) kernelStrided(m *ctxModel, off, nElem int, op kern.Op, cst uint32) {
+	c := th.c
+	span := nElem / 256 * 2048
+	q := th.queueFor(m, off, span, false)
+	o := opRec{Idx: len(m.ops), Kind: "kernel", Off: off, N: span, Q: q, Extra: fmt.Sprintf("strided %v(%d) gpu%d", op, cst, m.qGPU[q])}
+	o.old = append([]byte(nil), m.shadow[off:off+span]...)
+	for g := 0; g < nElem; g++ {
+		i := off + stridedOffset(g)
+		x := binary.LittleEndian.Uint32(m.shadow[i:])
+		binary.LittleEndian.PutUint32(m.shadow[i:], op.Apply(x, cst))
+	}
+	m.ops = append(m.ops, o)
+	m.lastWrite = len(m.ops) - 1
+	args := kern.ElemArgs{Buf: m.ptr(off), C: cst}
+	c.d.EnqueueLaunchKernel(m.queues[q], stridedKernel(op), [3]uint32{uint32(nElem), 1, 1}, [3]uint16{64, 1, 1}, &args)
+	m.claims = append(m.claims, claim{q, off, span})
+	m.busyQ[q] = true
+	m.kernelLaunched = true
+	c.count("kernels_launched|"+c.path, 1)
+	c.count("strided_kernels_launched", 1)
+}
+
+// sweepKernel is kern.ElemKernel with a loop: work-item gid applies op to the
+// elements gid, gid+n, gid+2n, ... (R passes over consecutive blocks of n
+// elements; the byte stride n*4 comes from the Pad field of the argument
+// block). Its effect equals one ElemKernel over R*n elements, but all
+// work-groups are resident at once and each keeps issuing cache-missing loads,
+// which loads the DRAM banks far more than the dispatch-bound single-pass
+// kernel.
+func sweepKernel(op kern.Op, passes int) *insts.KernelCodeObject {
+	if passes < 1 || passes > 64 {
+		panic("passes")
+	}
+	co := kern.ElemKernel(op)
+	var ws []uint32
+	for i := 0; i+4 <= len(co.Data); i += 4 {
+		ws = append(ws, binary.LittleEndian.Uint32(co.Data[i:]))
+	}
+	// locate flat_load_dword v2, v[0:1] and s_endpgm
+	ld, end := -1, -1
+	for i, w := range ws {
+		if w == 0xDC500000 && ld < 0 {
+			ld = i
+		}
+		if w == 0xBF810000 {
+			end = i
+		}
+	}
+	if ld < 0 || end < 0 || ws[1] != 0x00000000 || ws[2] != 0xC0020180 {
+		panic("harness: ElemKernel layout changed")
+	}
+	var out []uint32
+	out = append(out, ws[:4]...)                 // the two scalar loads
+	out = append(out, 0xC0020200, 0x0000000C)    // s_load_dword s8, s[0:1], 0xc   (stride in bytes)
+	out = append(out, ws[4:ld]...)               // waitcnt, address computation
+	out = append(out, 0xBE870080|uint32(passes)) // s_mov_b32 s7, passes
+	body := append([]uint32{}, ws[ld:end]...)    // load, waitcnt, op, store
+	body = append(body,
+		0x32000008, // v_add_u32 v0, vcc, s8, v0
+		0x38020280, // v_addc_u32 v1, vcc, 0, v1, vcc
+		0x80878107, // s_sub_u32 s7, s7, 1
+		0xBF078007, // s_cmp_lg_u32 s7, 0
+	)
+	out = append(out, body...)
+	out = append(out, 0xBF850000|uint32(uint16(-(len(body)+1)))) // s_cbranch_scc1 loop
+	out = append(out, 0xBF810000)                                // s_endpgm
+	co.Data = nil
+	for _, w := range out {
+		co.Data = binary.LittleEndian.AppendUint32(co.Data, w)
+	}
+	return co
+}
+
+// kernelSweep launches sweepKernel: op over passes*nElem consecutive dwords
+// starting at arena offset off (nElem a multiple of 64).
+func (th *thread) kernelSweep(m *ctxModel, off, nElem, passes int, op kern.Op, cst uint32) {
+	c := th.c
+	n := 4 * nElem * passes
+	q := th.queueFor(m, off, n, false)
+	o := opRec{Idx: len(m.ops), Kind: "kernel", Off: off, N: n, Q: q, Extra: fmt.Sprintf("sweep x%d %v(%d) gpu%d", passes, op, cst, m.qGPU[q])}
+	m.applyKernel(&o, op, cst)
+	args := kern.ElemArgs{Buf: m.ptr(off), C: cst, Pad: uint32(4 * nElem)}
+	c.d.EnqueueLaunchKernel(m.queues[q], sweepKernel(op, passes), [3]uint32{uint32(nElem), 1, 1}, [3]uint16{64, 1, 1}, &args)
+	m.claims = append(m.claims, claim{q, off, n})
+	m.busyQ[q] = true
+	m.kernelLaunched = true
+	c.count("kernels_launched|"+c.path, 1)
+	c.count("sweep_kernels_launched", 1)
+}
+
+// d2dKernel launches the driver's own device-to-device copy kernel
+// (Driver.EnqueueMemCopyD2D): dst[0:n] = src[0:n], n a multiple of 256 bytes.
+// It is memory bound (reads n bytes, writes n bytes) and is used to keep the
+// DRAM banks busy while copies of other queues run.
+func (th *thread) d2dKernel(m *ctxModel, dstOff, srcOff, n int) {
+	c := th.c
+	q := th.queueFor(m, dstOff, n, false)
+	if m.conflict(q, srcOff, n) {
+		th.drainAll()
+	}
+	o := opRec{Idx: len(m.ops), Kind: "kernel", Off: dstOff, N: n, Q: q, Extra: fmt.Sprintf("d2d(from %d) gpu%d", srcOff, m.qGPU[q])}
+	m.applyWrite(&o, append([]byte(nil), m.shadow[srcOff:srcOff+n]...))
+	c.d.EnqueueMemCopyD2D(m.queues[q], m.ptr(dstOff), m.ptr(srcOff), n)
+	m.claims = append(m.claims, claim{q, dstOff, n}, claim{q, srcOff, n})
+	m.busyQ[q] = true
+	m.kernelLaunched = true
+	c.count("kernels_launched|"+c.path, 1)
+	c.count("d2d_kernels_launched", 1)
 }
 
 func (th *thread) drainAll() {
@@ -951,9 +1105,63 @@ func (th *thread) kernelRange(m *ctxModel) (int, int) {
 }
 
 // step executes one generated operation.
+// concurrentMotif (DMA path): a kernel on one queue and, without draining it,
+// two to four copies of more than one page on other queues (preferably of
+// another context), none of them touching the kernel's range: the copies'
+// per-page pieces are in the DMA engine while the kernel's L2 traffic keeps
+// the DRAM banks busy.
+func (th *thread) concurrentMotif() {
+	c := th.c
+	r := th.r
+	th.drainAll()
+	mk := th.ms[r.Intn(len(th.ms))]
+	mc := th.ms[r.Intn(len(th.ms))]
+	koff, kn := -1, 0
+	for try := 0; try < 6; try++ {
+		if o, n := th.kernelRange(mk); o >= 0 && n > kn {
+			koff, kn = o, n
+		}
+	}
+	if koff < 0 {
+		return
+	}
+	th.kernel(mk, koff, kn, kern.Op(r.Intn(3)), 1+2*uint32(r.Intn(1000)), false)
+	types := []elemType{typeByName("[]byte"), typeByName("[]uint32"), typeByName("[]uint64"), typeByName("[]float32"), typeByName("[]S22")}
+	issued := 0
+	for i, want := 0, 2+r.Intn(3); i < want; i++ {
+		t := types[r.Intn(len(types))]
+		for try := 0; try < 40; try++ {
+			o, n := mc.pickRange(r, t, 8*pageSize, true)
+			if o < 0 || n <= pageSize {
+				continue
+			}
+			if mc == mk && o < koff+4*kn && koff < o+n {
+				continue
+			}
+			if r.Chance(2, 5) {
+				th.h2d(mc, o, n, t, false, "h2d")
+			} else {
+				th.d2h(mc, o, n, t, false, "d2h", -1)
+			}
+			th.nOps++
+			issued++
+			break
+		}
+	}
+	c.count("multi_page_copies_issued_next_to_an_undrained_kernel", int64(issued))
+	if mc != mk {
+		c.count("multi_page_copies_issued_next_to_a_kernel_of_another_context", int64(issued))
+	}
+	th.drainAll()
+}
+
 func (th *thread) step() {
 	c := th.c
 	r := th.r
+	if c.path == "dma" && r.Chance(1, 7) {
+		th.concurrentMotif()
+		return
+	}
 	m := th.ms[r.Intn(len(th.ms))]
 	maxLen := 5 * pageSize
 	if c.path != "emu" {
@@ -1205,6 +1413,9 @@ func childMain() {
 		for si := 0; done < cfg.Ops; si++ {
 			done += c.runScenario(si, rng.ForkN("scenario", si), cfg.Ops-done)
 		}
+	}
+	if debugTrace {
+		fmt.Println("DMA sub-request latency histogram (10 ns bins):", latHist)
 	}
 	close(stop)
 	c.flush()
